@@ -393,9 +393,9 @@ func boRunCase(id string, in boInput) Case {
 		cs = append(cs, fmt.Sprintf("(%s, %s, %s)", op.coq(), coqBool(ok), o.coq()))
 		if ok {
 			nok++
-			tags["ok:"+op.K] = true
+			tags["op-ok:"+op.K] = true
 		} else {
-			tags["rejected:"+op.K] = true
+			tags["op-rejected:"+op.K] = true
 		}
 		if oracle == "" {
 			if m := e.oracle(); m != "" {
